@@ -189,7 +189,7 @@ func judge(eng *Engine, cfg *Config, ck *CheckCfg, property, tier string, seed i
 		}
 		groups[k] = append(groups[k], v)
 	}
-	replayDir := filepath.Join(verifDir(), "replays", property)
+	replayDir := filepath.Join(outDir(), "replays", property)
 	var toReplay []*violation
 	entryByName := map[string]*EntryCfg{}
 	for _, t := range tasks {
@@ -445,10 +445,10 @@ func judge(eng *Engine, cfg *Config, ck *CheckCfg, property, tier string, seed i
 	if ck.Level != "" {
 		ev["level"] = ck.Level
 	}
-	os.MkdirAll(filepath.Join(verifDir(), "evidence"), 0o755)
+	os.MkdirAll(filepath.Join(outDir(), "evidence"), 0o755)
 	b, _ := json.MarshalIndent(ev, "", " ")
 	if property != "SELFTEST" {
-		os.WriteFile(filepath.Join(verifDir(), "evidence", property+".json"), b, 0o644)
+		os.WriteFile(filepath.Join(outDir(), "evidence", property+".json"), b, 0o644)
 	}
 
 	fmt.Printf("%s %s: %d tasks, %d paths %v, %d queries (sat %d unsat %d unknown %d), solver %.1fs (max %.2fs), %d functions (%d of /repo), %d assertions discharged, validated %d, wall %.1fs -> exit %d\n",
